@@ -1083,10 +1083,10 @@ func genHotHistory(g *hx.Gen) {
 }
 
 func gen(g *hx.Gen) {
-	for h := 0; h < g.N(60, 800); h++ {
+	for h := 0; h < g.N(60, 400); h++ {
 		genHotHistory(g)
 	}
-	for h := 0; h < g.N(200, 2500); h++ {
+	for h := 0; h < g.N(200, 1400); h++ {
 		genHistory(g, h%3 == 0)
 	}
 	g.Emit("reset")
